@@ -200,4 +200,9 @@ def kAxisSq (n : Nat) (dist : Rat) (j : Nat) : Rat :=
   let m : Nat := min j (n - j)
   ((m : Rat) * dist) * ((m : Rat) * dist)
 
+/-- squared k-length of the harmonic partner at grid index (j1,j2,j3): `get_k_length_array()**2`;
+    `h1 h2 h3` are the harmonic distances 1/(n·rdist) -/
+def kSq (n1 n2 n3 : Nat) (h1 h2 h3 : Rat) (i : Idx) : Rat :=
+  kAxisSq n1 h1 i.j1 + kAxisSq n2 h2 i.j2 + kAxisSq n3 h3 i.j3
+
 end NiftyVerif.Harmonic
